@@ -94,6 +94,15 @@ def run(ctx: Ctx) -> None:
             if r.kind == "return" and r.label in ("composite", "start", "metadata", "validation", "values", "connectionoptions"):
                 bad |= hidden_keys(r.value) - HIDDEN_OK
         ctx.check(not bad, "B1", f"flags {flags}: hidden keys in block results", "mappyfile/transformer.py", "only __type__/__position__/__comments__", f"block dictionaries carry unexpected hidden keys {sorted(bad)}")
+        # a bookkeeping key is present only when its own flag is on
+        off = ({"__position__"} if not flags[0] else set()) | ({"__comments__"} if not flags[1] else set())
+        leaked = {}
+        for r in X.all_evals:
+            if r.kind == "return" and r.label in ("composite", "start", "metadata", "validation", "values", "connectionoptions"):
+                got = hidden_keys(r.value) & off
+                if got:
+                    leaked.setdefault(r.label, set()).update(got)
+        ctx.check(not leaked, "B1", f"flags {flags}: bookkeeping keys only when asked for", "mappyfile/transformer.py", f"none of {sorted(off)} present", f"with include_position={flags[0]} include_comments={flags[1]} the block results of {sorted(leaked)} still carry {sorted(set().union(*leaked.values())) if leaked else []}: a plain load is not plain")
 
     # ---- B2 ------------------------------------------------------------------------------------------
     ctx.rule("B2", "composite() removes __position__/__tokens__/__comments__ from attribute dictionaries before reading the keyword and hoists them only under the hidden keys", 3)
